@@ -1,5 +1,74 @@
-(* C01 - placeholder while the proofs are being written: the statements arrive with Proofs/ExecP.v *)
-From Verif Require Import Base.Prelude Enc.JsonEnc Api.Exec.
-Theorem C01_fresh_begins_with_brace : forall marks, e_buf (fresh marks) = [123%N].
-Proof. reflexivity. Qed.
-Print Assumptions C01_fresh_begins_with_brace.
+(* C01 - Every emitted event is exactly one well-formed JSON object on one line.
+   Statements only; proofs are [exact] from Proofs/ExecP.v and Proofs/JsonEncP.v. *)
+From Verif Require Import Base.Prelude Base.Decimal Base.Utf8 Base.JsonSpec Enc.JsonEnc Misc.Level
+     Proofs.JsonEncP Api.Exec Api.Spec Proofs.ExecP.
+Open Scope N_scope.
+
+(* For ALL settings, ALL logger derivation chains (With / UpdateContext with any
+   context ops, hooks), ALL event programs (any nesting of Dict / Array / Object
+   / EmbedObject / Fields / Func / errors, any bytes in keys, strings, []byte,
+   error texts, NaN/Inf, nil values, empty slices, field-less objects), ALL
+   levels, messages:  if the line is written, it is  body ++ "\n"  where body is
+   one RFC 8259 object, valid UTF-8 (RFC 3629), and every byte of body is >= 0x20
+   (so no raw newline or control byte).
+   Premises = the property's own exclusions and the oracle hypotheses:
+   [chain_ok] / [hooks_ok] / [ops_ok] only constrain pre-encoded fragments
+   (RawJSON, marshal-function results: valid JSON), time layouts (no quote,
+   backslash, control bytes), the strconv float texts (JSON numbers) and base64
+   text (base64 alphabet); see Api/Spec.v [prim_ok]. *)
+Theorem C01_event_line : forall st chain lvl ops msg line,
+  chain_ok st chain -> hooks_ok st chain -> ops_ok st ops ->
+  fst (run_chain st chain lvl ops msg) = Some line ->
+  exists body kvs, line = body ++ [10] /\ Json body (JObj kvs) /\
+    (exists cs, Utf8 body cs) /\ Forall (fun b => 32 <= b /\ b < 256) body.
+Proof. exact event_line. Qed.
+
+(* the string escaper alone: for EVERY byte string (no premise), the quoted
+   text is a JSON string denoting Go's reading of the bytes (ill-formed bytes
+   read as U+FFFD), is valid UTF-8 and has no control byte *)
+Theorem C01_string_escaping : forall s, JString (json_string s) (go_runes s) /\ GoodTxt (json_string s).
+Proof. exact json_string_good_all. Qed.
+
+(* the comma decision of AppendKey and the context splice, as shapes *)
+Theorem C01_AppendKey_shape : forall dst key,
+  AppendKey dst key = dst ++ (if last_byte dst =? 0x7B then [] else [0x2C]) ++ json_string key ++ [0x3A].
+Proof. exact AppendKey_shape. Qed.
+
+(* no value text ends in an opening brace: this is what makes "look at the last byte" sound *)
+Theorem C01_value_never_ends_in_brace : forall t v, Json t v -> t <> [] /\ last_byte t <> 0x7B.
+Proof. exact Json_last. Qed.
+
+(* non-vacuity: a nested program with context, hook, Dict, Array, Fields, errors meets the premises *)
+Definition ex_settings : settings :=
+  {| s_level_name := [108]; s_message_name := [109]; s_error_name := [101]; s_stack_name := [115];
+     s_timestamp_name := [116]; s_caller_name := [99]; s_timefmt := TFUnixMs; s_dur_unit := 1000000; s_dur_int := true;
+     s_prec := (-1)%Z; s_nil_iface := IfOk [110;117;108;108]; s_level_text := level_string; s_stack_marshaler := true |}.
+Definition ex_chain : list (bool * list cop) :=
+  [(false, [COp (OKey [97;34] (PStr [10;255;226;130])); CEmbed None; CObject [111] (Some []); CHook [OMark 1; OKey [104] (PBool true)]]);
+   (true, [COp (OKey [117] (PInt (-5)))])].
+Definition ex_ops : list op :=
+  [OKey [107] (PInts [1; -2]%Z); ODict [100] [OKey [120] PNil; OArray [97] [AElem (PUint 7); AObj []; AErr ETypedNil]];
+   OStack; OFields [(Some [102], FVErrs [EText [98;111;111;109]; ENil]); (None, FVPrim PNil); (Some [103], FVErr (EText [120]) ENil)];
+   OErr (EObj [OKey [105] (PStr [])]) (EText [116;114]); OEmbed (Some []); OObject [122] None].
+
+Lemma raw_null_ok : raw_ok [110;117;108;108].
+Proof.
+  split.
+  - exists JNull. apply parse_json_sound. vm_compute. reflexivity.
+  - apply GoodTxt_ascii. repeat constructor; unfold printable; lia.
+Qed.
+
+Example C01_ex_premises : chain_ok ex_settings ex_chain /\ hooks_ok ex_settings ex_chain /\ ops_ok ex_settings ex_ops.
+Proof.
+  unfold chain_ok, hooks_ok, ops_ok, op_ok. cbn.
+  repeat first [exact raw_null_ok | exact Logic.I | lia | split | constructor | progress cbn].
+Qed.
+
+Example C01_ex_line :
+  fst (run_chain ex_settings ex_chain 1%Z ex_ops [104;105]) <> None.
+Proof. vm_compute. discriminate. Qed.
+
+Print Assumptions C01_event_line.
+Print Assumptions C01_string_escaping.
+Print Assumptions C01_AppendKey_shape.
+Print Assumptions C01_value_never_ends_in_brace.
